@@ -134,3 +134,232 @@ def to_case(ob):
                     c["other"] = other
                 out.append(c)
     return out
+
+
+# ------------------------------------------------------------------------------------------------------------- AliasedFactory.from_alias
+# First sentence of C08 ("resolves ... unknown alias raises ValueError ... the one registered last wins"), for FLAT families of any size:
+# a root class with n >= 0 direct subclasses registered in the order 1..n (what `__subclasses__()` returns), none of which has subclasses
+# of its own - the shape of every family the library ships (checked by enumeration in the stand-in).  Proved for every n, every alias
+# and every assignment of alias sets:
+#     returns      an instance of class c, built with exactly the caller's positional and keyword arguments, where c is the LAST registered
+#                  subclass whose aliases contain the alias, or the root itself when no subclass matches and the root does
+#     ValueError   iff no class of the family has the alias
+#     termination  not proved (the walk visits each class twice)
+# For nested hierarchies the traversal order of the code differs from registration order (open known finding C08-nested-shadowing); the
+# contract's precondition excludes them.
+import ast as _ast
+
+I_, B_ = z3.IntSort(), z3.BoolSort()
+HASALIAS = z3.Function("class_has_alias", I_, B_)
+
+
+class Cls(PyCallable):
+    """class object number c of the family (0: the root, 1..n: its subclasses in registration order)"""
+    def __init__(self, c):
+        self.c = c
+        PyCallable.__init__(self, self._call)
+
+    def _call(self, ev, args, kwargs, node):
+        ok = len(args) == 1 and isinstance(args[0], symex.StarArgs) and getattr(args[0].value, "term", None) == "ARGS" \
+            and set(kwargs) == {None} and getattr(kwargs[None], "term", None) == "KWARGS"
+        ev.ex.oblige(ev.st, ok, f"constructed_with_exactly_the_callers_arguments.L{node.lineno - ev.ex.fx.lineno}", "trace", node.lineno)
+        return Instance(self.c)
+
+    def sym_getattr(self, attr, ev, node):
+        if attr == "__subclasses__":
+            n = ev.ex.ctx["n"]
+
+            def subs(ev2, a, kw, n2):
+                # flat family: only the root has subclasses
+                return Children(z3.If(api.Z(self.c) == 0, n, 0))
+            return PyCallable(subs)
+        if attr == "aliases":
+            return AliasSet(self.c)
+        raise Outside(f"class attribute .{attr}")
+
+
+class Instance:
+    def __init__(self, c):
+        self.c = c
+
+
+class AliasSet:
+    def __init__(self, c):
+        self.c = c
+
+
+class Children:
+    def __init__(self, n):
+        self.n = api.simp(api.Z(n))
+
+
+class SymStack:
+    """list of class numbers: ghost 'stk' (Array Int -> Int) and 'sp'"""
+    def sym_getattr(self, attr, ev, node):
+        st = ev.st
+        if attr == "pop":
+            def pop(ev2, a, kw, n2):
+                if a or kw:
+                    raise Outside("list.pop with an index")
+                s = ev2.st
+                sp = api.Z(s.ghost["sp"])
+                ev2.wd(sp >= 1, "pop_from_a_non_empty_list", n2)
+                s.ghost["sp"] = api.simp(sp - 1)
+                return Cls(api.simp(z3.Select(s.ghost["stk"], sp - 1)))
+            return PyCallable(pop)
+        if attr == "append":
+            def append(ev2, a, kw, n2):
+                s = ev2.st
+                if len(a) != 1 or not isinstance(a[0], Cls):
+                    raise Outside("append form")
+                sp = api.Z(s.ghost["sp"])
+                s.ghost["stk"] = z3.Store(s.ghost["stk"], sp, api.Z(a[0].c))
+                s.ghost["sp"] = api.simp(sp + 1)
+            return PyCallable(append)
+        if attr == "extend":
+            def extend(ev2, a, kw, n2):
+                s = ev2.st
+                if len(a) != 1 or not isinstance(a[0], Children):
+                    raise Outside("extend form")
+                sp, m = api.Z(s.ghost["sp"]), a[0].n
+                k = z3.Int("xk!%d" % next(symex._fresh))
+                old = s.ghost["stk"]
+                s.ghost["stk"] = z3.Lambda([k], z3.If(z3.And(k >= sp, k < sp + m), k - sp + 1, z3.Select(old, k)))     # children 1..m in registration order
+                s.ghost["sp"] = api.simp(sp + m)
+            return PyCallable(extend)
+        raise Outside(f"list attribute .{attr}")
+
+
+class SymSet:
+    """set of class numbers: ghost 'pushed' (Array Int -> Bool)"""
+    def sym_getattr(self, attr, ev, node):
+        if attr == "add":
+            def add(ev2, a, kw, n2):
+                if len(a) != 1 or not isinstance(a[0], Cls):
+                    raise Outside("add form")
+                ev2.st.ghost["pushed"] = z3.Store(ev2.st.ghost["pushed"], api.Z(a[0].c), True)
+            return PyCallable(add)
+        raise Outside(f"set attribute .{attr}")
+
+
+def _fa_compare(ex, st, op, a, b, n, ev):
+    if isinstance(op, (_ast.In, _ast.NotIn)):
+        neg = isinstance(op, _ast.NotIn)
+        if isinstance(a, Cls) and isinstance(b, SymSet):
+            r = z3.Select(st.ghost["pushed"], api.Z(a.c))
+            return z3.Not(r) if neg else r
+        if isinstance(b, AliasSet) and isinstance(a, Opaque) and a.term == "ALIAS":
+            r = HASALIAS(api.Z(b.c))
+            return z3.Not(r) if neg else r
+    return NotImplemented
+
+
+def _fa_truthiness(ex, st, v):
+    if isinstance(v, SymStack):
+        return api.Z(st.ghost["sp"]) > 0
+    if isinstance(v, list):
+        return len(v) > 0
+    return NotImplemented
+
+
+def _fa_setup(ex, st):
+    n = api.sym("n_subclasses")
+    st.assume(n >= 0)
+    st.env.update(cls=Cls(0), alias=Opaque("ALIAS", "str"), args=Opaque("ARGS", "tuple"), kwargs=Opaque("KWARGS", "mapping"))
+    st.ghost.update(stk=z3.K(I_, z3.IntVal(-1)), sp=0, pushed=z3.K(I_, z3.BoolVal(False)))
+    ex.ctx = dict(n=n)
+
+
+def _fa_set(ex, st, args, kwargs, node, ev):
+    if args or kwargs:
+        raise Outside("set() form")
+    return SymSet()
+
+
+def contract_from_alias():
+    def norm(ev):
+        """(sp, stk) whether `stack` is still the list display [cls] or already the symbolic stack"""
+        st = ev.st
+        v = st.env.get("stack")
+        if isinstance(v, list):
+            if len(v) != 1 or not isinstance(v[0], Cls):
+                raise Outside("initial stack form")
+            return z3.IntVal(1), z3.Store(z3.K(I_, z3.IntVal(-1)), 0, api.Z(v[0].c))
+        return api.Z(st.ghost["sp"]), st.ghost["stk"]
+
+    def inv(ev):
+        st, c = ev.st, ev.ex.ctx
+        n = c["n"]
+        sp, stk = norm(ev)
+        pushed = st.ghost["pushed"]
+        k, cc = z3.Int("ik"), z3.Int("ic")
+        start = z3.And(sp == 1, z3.Select(stk, 0) == 0, z3.ForAll([cc], z3.Not(z3.Select(pushed, cc))))
+        walk = z3.And(sp >= 0, sp <= n + 1,
+                      z3.ForAll([k], z3.Implies(z3.And(k >= 0, k < sp), z3.Select(stk, k) == k)),
+                      z3.Select(pushed, 0),
+                      # classes above the top of the stack are done and did not match; those below the top are untouched
+                      z3.ForAll([cc], z3.Implies(z3.And(cc >= sp, cc <= n, cc >= 0), z3.And(z3.Select(pushed, cc), z3.Not(HASALIAS(cc))))),
+                      z3.ForAll([cc], z3.Implies(z3.And(cc >= 1, cc < sp - 1), z3.Not(z3.Select(pushed, cc)))))
+        return z3.Or(start, walk)
+
+    def result_ok(ev, res):
+        c = ev.ex.ctx
+        if not isinstance(res, Instance):
+            return z3.BoolVal(False)
+        r = api.Z(res.c)
+        cc = z3.Int("rc")
+        return z3.And(r >= 0, r <= c["n"], HASALIAS(r), z3.ForAll([cc], z3.Implies(z3.And(cc >= 1, cc <= c["n"], z3.Or(cc > r, r == 0)), z3.Not(HASALIAS(cc)))))
+
+    def nobody(ev):
+        c = ev.ex.ctx
+        cc = z3.Int("nc")
+        return z3.ForAll([cc], z3.Implies(z3.And(cc >= 0, cc <= c["n"]), z3.Not(HASALIAS(cc))))
+
+    c = Contract(
+        target="alias:AliasedFactory.from_alias", uses=["A-PYSEM", "A-PY-SUBCLASSES"],
+        consts={"INV": SpecFn(inv), "RESULT_OK": SpecFn(result_ok), "NOBODY": SpecFn(nobody)},
+        handlers={"set": _fa_set, "compare": _fa_compare, "truthiness": _fa_truthiness},
+        loops={0: LoopSpec(kind="while", modifies_ghost=["stk", "sp", "pushed"], types={"stack": lambda hst, v: SymStack(), "pushed_children": lambda hst, v: SymSet()},
+                           convert={"stack": _convert_stack},
+                           invariant=[("walk_from_the_last_registered_subclass_down", "INV()")])},
+        raises={"ValueError": "NOBODY()"},
+        ensures=[("instance_of_the_last_registered_class_with_the_alias", "RESULT_OK(result)")],
+    )
+    return c
+
+
+def _convert_stack(st, v):
+    """before the loop: the list display [cls] becomes the symbolic stack with that one element"""
+    if isinstance(v, list) and len(v) == 1 and isinstance(v[0], Cls):
+        st.ghost["stk"] = z3.Store(z3.K(I_, z3.IntVal(-1)), 0, api.Z(v[0].c))
+        st.ghost["sp"] = 1
+        return SymStack()
+    if isinstance(v, SymStack):
+        return v
+    raise Outside("initial stack form")
+
+
+from pyvc.symex import LoopSpec  # noqa: E402
+
+
+def to_case_from_alias(ob):
+    """flat class trees (a throw-away root with n = 0..4 direct subclasses), every assignment of the alias 'x' to the classes, queried
+    from the root for 'x' and for an alias nobody has - in the C08 stand-in's shadow-tree case format"""
+    import itertools
+    out = []
+    for n in range(0, 5):
+        parents = [-1] + [0] * n
+        for has in itertools.product((False, True), repeat=n + 1):
+            aliases = [["x"] if h else [] for h in has]
+            for alias in ("x", "zz"):
+                out.append({"part": "shadow", "parents": parents, "aliases": aliases, "cls": 0, "alias": alias})
+    return out
+
+
+def unit_from_alias(prop="C08"):
+    def unit(tier, known):
+        from contracts.registry import run_contract
+        return run_contract(prop, ("alias", "AliasedFactory.from_alias"), contract_from_alias(), [("flat_family", _fa_setup)], name="from_alias",
+                            fname="AliasedFactory.from_alias", to_case=to_case_from_alias, replay_module="rtc.c08")
+    unit.__name__ = "from_alias"
+    return unit
